@@ -119,6 +119,11 @@ def cli(argv: list[str], cwd: Path | None = None) -> tuple[int, str, str]:
                 cli_mod.main(argv)
             except SystemExit as exc:
                 code = exc.code if isinstance(exc.code, int) else (0 if exc.code is None else 1)
+            except BaseException:  # noqa: BLE001
+                # what a `semantiva` process does with an exception nobody handles: traceback on stderr, exit status 1
+                import traceback
+                err.write("Traceback (uncaught exception leaving semantiva.cli.main):\n" + traceback.format_exc())
+                code = 1
     finally:
         os.chdir(old)
         logging.disable(logging.CRITICAL)
